@@ -723,11 +723,16 @@ func (p *pp) printArg(arg interface{}, verb rune) {
 		// of the basic kinds (and nil) never reach handleMethods, which
 		// is where that misuse cancels error wrapping; do it here so that
 		// it does not depend on the operand's type.
-		if _, isValue := arg.(reflect.Value); !isValue {
-			if _, ok := arg.(error); !ok {
+		// A reflect.Value operand reaches handleMethods only if the value
+		// it holds can be extracted.
+		if f, isValue := arg.(reflect.Value); isValue {
+			if !f.IsValid() || !f.CanInterface() {
 				p.wrappedErr = nil
 				p.wrapErrs = false
 			}
+		} else if _, ok := arg.(error); !ok {
+			p.wrappedErr = nil
+			p.wrapErrs = false
 		}
 	}
 
